@@ -234,17 +234,22 @@ def run_scenario(world, requests, env0):
 
 # ------------------------------------------------------------------ model side
 
-def model_line(world, res, rec, fuel=60):
+def world_field(res):
+    """the world as the real parser sees it, in the encoding of the driver (build/c01/run)"""
     prods = []
     for key, info in sorted(res["parsed"].items()):
         name, v = key.split(" ")
         prods.append("%s:%s:%s:%s" % (enc(name), enc(v), enc(info["dir"]), "+".join(info["actions"])))
+    return "|".join(prods)
+
+
+def model_line(world, res, rec, fuel=60):
     rq = rec["request"]
     md = rq.get("max_depth")
     cfg = "%s,%s,%s,%s" % (enc(FLAVOR), enc(res["stack"]), "-" if md is None or md < 0 else str(md),
                            "1" if rq.get("keep") else "0")
     ds = ",".join("!" if d is None else enc(d) for d in rec["decisions"])
-    return "\t".join(["req", "|".join(prods), cfg, common.enc_env(rec["before"]), "", ds, enc(rq["name"]),
+    return "\t".join(["req", world_field(res), cfg, common.enc_env(rec["before"]), "", ds, enc(rq["name"]),
                       "1" if rq.get("fwd", True) else "0", "1" if rq.get("just") else "0", str(fuel)])
 
 
@@ -365,6 +370,53 @@ def own_contributions(res, name, version):
     return paths, sets, aliases
 
 
+WF2_FIELDS = ["actions", "vars", "rank", "var_apart", "elem_apart", "versions", "set_once", "keys", "words"]
+
+
+def dependency_order(res):
+    """all names the world speaks about (declared names and dependency targets), dependencies first: the
+    rank witness handed to the checker (depth-first post-order over the sorted names; for a cyclic graph
+    no order exists and the checker's rank field says so)"""
+    g = world_graph(res)
+    order, seen = [], set()
+
+    def visit(n):
+        if n in seen:
+            return
+        seen.add(n)
+        for m in sorted(g.get(n, ())):
+            visit(m)
+        order.append(n)
+    for n in sorted(g):
+        visit(n)
+    return order
+
+
+def wf_line(res, op="wff"):
+    return "\t".join([op, world_field(res), ",".join(enc(n) for n in dependency_order(res))])
+
+
+def wf_fraction(ctx, results):
+    """how many of the worlds (as parsed by the real parser) satisfy the hypotheses WF2 / WF of the theorems of
+    coq/Props/C01.v, C02.v, C04.v: the extracted checker wf2_check (coq/Model/SetupWf.v, sound by
+    coq/Proofs/SetupWf.v) is run on every world; counts go to the input distribution"""
+    lines = [wf_line(r) for r in results]
+    inside = 0
+    for out in ctx.model(lines, pid="C01"):
+        bits = out.strip()
+        if len(bits) != len(WF2_FIELDS) or set(bits) - set("01"):
+            raise RuntimeError("bad answer of the WF2 checker: %r" % (out,))
+        if "0" not in bits:
+            inside += 1
+            ctx.bump("world-satisfies-WF2")
+        else:
+            ctx.bump("world-outside-WF2")
+            for name, b in zip(WF2_FIELDS, bits):
+                if b == "0":
+                    ctx.bump("world-outside-WF2:" + name)
+    return inside, len(lines)
+
+
 def run_scenarios(ctx, scenarios, oracle, nproc=14):
     """scenarios: list of {"world", "requests", "env0"}; oracle(ctx, scenario, result) evaluates the property on
     the real records; every request is also compared with the model"""
@@ -381,6 +433,7 @@ def run_scenarios(ctx, scenarios, oracle, nproc=14):
     for out, (s, r, rec) in zip(outs, meta):
         compare(ctx, s["world"], r, rec, model_result(out))
         ctx.traces_validated += 1
+    wf_fraction(ctx, [r[1] for r in results])
     for s, r in zip(scenarios, results):
         oracle(ctx, s, r[1])
     return results
